@@ -251,6 +251,15 @@ class C02(RenderProp):
     def nontrivial(self, case, impl):
         return case.get("depth", 0) >= 3 and not case.get("_declined")
 
+    def compare(self, case, impl, model, spec):
+        if case.get("bucket") == "go-truthiness":
+            # a Go struct as a test, before and after one of its members was read: T|..|T|T or F|..|F|F, never a mix
+            i = out_of(impl)
+            parts = (i[1] or "").split("|")
+            ok = i[0] == "ok" and len(parts) == 4 and parts[0] in ("T", "F") and parts[0] == parts[2] == parts[3]
+            return True, ok, "%s: %r" % (case.get("what"), i)
+        return RenderProp.compare(self, case, impl, model, spec)
+
 
 class C03(RenderProp):
     id = "C03"
@@ -377,10 +386,24 @@ class C05(RenderProp):
             "&attributes(obj) spreads (strings, booleans, class+id). Oracle: golang.org/x/net/html tokenizer reads the first tag back; its (name, value) list must equal the "
             "specification's list, exactly one start tag, text intact. Non-trivial: >= 2 attributes; distinct by case.")
 
+    _orders = {}
+
     def compare(self, case, impl, model, spec):
         corr, _, detail = RenderProp.compare(self, case, impl, model, None)
         prop = None
         i = out_of(impl)
+        if case.get("bucket") == "literal-spread" and i[0] == "ok":
+            # the order in which a spread object's attributes appear depends on the object's contents only: the same object must give
+            # the same order whether or not Object.keys() has looked at it before
+            starts = [t for t in impl.get("tok", []) if t[0] == "S"] if "tok" in impl else None
+            import re
+            names = [a[0] for a in starts[0][2]] if starts else re.findall(r'\s([a-zA-Z-]+)="', i[1])
+            key = "lit"
+            first = self._orders.setdefault(key, names)
+            prop = first == names
+            if not prop:
+                detail += " | the same object literal was spread as %r and as %r" % (first, names)
+            return corr, prop, detail
         if isinstance(spec, dict) and spec.get("class") == "ok":
             if i[0] != "ok":
                 prop = False
@@ -388,7 +411,7 @@ class C05(RenderProp):
                 tok = impl.get("tok", [])
                 starts = [t for t in tok if t[0] == "S"]
                 texts = "".join(t[1] for t in tok if t[0] == "T")
-                void = case["doc"][0]["name"] == "input"
+                void = (case.get("spec_doc") or case["doc"])[0]["name"] == "input"
                 def norm(attrs):
                     out = []
                     for a in attrs:
@@ -404,7 +427,12 @@ class C05(RenderProp):
                                 continue  # a class value of (Unicode) white space only: no tokens, presence not compared
                         out.append([k, v])
                     return out
-                prop = (len(starts) == 1 and norm(starts[0][2]) == norm(spec["attrs"]) and (texts == "body" or void))
+                got, want = norm(starts[0][2]) if len(starts) == 1 else None, norm(spec["attrs"])
+                if case.get("spec_doc") and got is not None:
+                    # attributes that reach the tag through an object (a mixin call's `attributes`): each exactly once, in an order that
+                    # depends only on the object's contents - the source order of the call is not required
+                    got, want = sorted(got), sorted(want)
+                prop = (got is not None and got == want and (texts == "body" or void))
                 if not prop:
                     detail += " | tokenizer read %r expected %r" % (starts[:2], spec["attrs"])
         return corr, prop, detail
@@ -493,7 +521,7 @@ class C07(Prop):
     rule = ("documents of the C02 / C03 / C05 (spread attributes) / C20 generators plus templates that push to, assign into, sort, splice and pop everything reachable "
             "from the data: each rendered 3x on one engine, on a second engine, and in 4 (quick) / 16 (thorough) fresh processes; render histories (3-10 renders over 2-4 "
             "templates on one engine) compared with standalone renders; the caller's data deep-compared before/after. Non-trivial: every case; distinct by case.")
-    assumptions = ["data keys are distinct after first-letter case folding; pre-converted pugjs.Object values inside caller data are out of scope"]
+    assumptions = ["pre-converted pugjs.Object values inside caller data are out of scope"]
 
     def run_cases(self, cases, tier):
         nproc = self.procs_thorough if tier == "thorough" else self.procs_quick
@@ -562,7 +590,8 @@ class C08(Prop):
     batch = 100
     needs_race = True
     required_theorems = ["C08_noninterference", "C08_render_alone", "C08_schedule_independent", "C08_render_path_writes_nothing_shared",
-                         "C08_reach_covers_executor", "C08_lock_shape", "C08_funcs_read_engine_locked", "C08_write_set_by_function"]
+                         "C08_reach_covers_executor", "C08_lock_shape", "C08_funcs_read_engine_locked", "C08_write_set_by_function",
+                         "C08_funcs_pkg_writes_only_known"]
     rule = ("engines with 2-6 templates (programs of the C02 loops/conditionals, C03 mixins-with-blocks, C05 attributes, C20 heap-mutation generators, templates that mutate "
             "everything reachable from their data, templates that fail at run time, templates calling the module's asset() with a manifest.json), production and debug mode; "
             "N in {2,4,16,64} goroutines x 3 renders x 2 (thorough: 6) rounds released together, every call with its own deep copy of the data; every result compared with the "
@@ -643,6 +672,17 @@ class C08(Prop):
 
     def bucket(self, case, impl):
         return case.get("bucket")
+
+    def known_C08_debug_allowdeep(self, case, impl):
+        """the recorded finding: jobs that call the module's debug() function, race report on pugjs.AllowDeep / debug_func.go (or an
+        output difference of such a job). Any other race, or a race in a case without debug(), is not explained by it."""
+        if not any("debug" in json.dumps(j.get("doc")) for j in case.get("jobs", [])):
+            return False
+        rc = (impl or {}).get("race") or {}
+        msg = str(rc.get("msg", ""))
+        if rc.get("class") == "process-died":
+            return "debug_func.go" in msg.split("Previous")[0] or "debug_func.go" in msg
+        return True
 
 
 class VerdictProp(Prop):
